@@ -314,7 +314,9 @@ def check(case, ctx):
     else:
         # cyclic: termination was just observed; the size must stay in proportion to the expansion that respects the recursion guard
         try:
-            guarded = model_expand(root, files, top_rel, search, top_path, fmt, [], [real_top], set(), top=True, skip_cycles=True)
+            # (the guard is a stack of the files being transcluded; the top document itself was not transcluded by anybody, so it can be
+            # pulled in once more through a marker before the guard sees it)
+            guarded = model_expand(root, files, top_rel, search, top_path, fmt, [], [], set(), top=True, skip_cycles=True)
             limit = 4 * len(guarded.encode('utf-8', 'surrogateescape')) + 64 * 1024
             if len(got.encode('utf-8', 'surrogateescape')) > limit:
                 raise Violation('termination:output-out-of-proportion', 'cyclic include graph: output of %d bytes, the guard-respecting expansion has %d bytes\nfiles=%r'
